@@ -316,6 +316,13 @@ func (r *runner) genPlan(seed uint64) json.RawMessage {
 	if err != nil {
 		return nil
 	}
+	// goom's logger prints its log file location on stdout at init: keep the JSON document only
+	if i := bytes.Index(b, []byte("{\n")); i >= 0 {
+		b = b[i:]
+	}
+	if !json.Valid(b) {
+		return nil
+	}
 	return json.RawMessage(b)
 }
 
@@ -412,7 +419,7 @@ func (r *runner) attributeRace(from, to uint64, crashed *uint64, reports []strin
 	r.mu.Unlock()
 }
 
-var frameRe = regexp.MustCompile(`github\.com/tencent/goom[^\s(]*`)
+var frameRe = regexp.MustCompile(`github\.com/tencent/goom[^\s]*`)
 
 func raceKey(report string) string {
 	m := frameRe.FindAllString(report, -1)
@@ -421,7 +428,7 @@ func raceKey(report string) string {
 		if strings.Contains(f, "verifsim") {
 			continue
 		}
-		k = append(k, strings.TrimPrefix(f, "github.com/tencent/goom"))
+		k = append(k, strings.TrimSuffix(strings.TrimPrefix(f, "github.com/tencent/goom"), "()"))
 		if len(k) == 2 {
 			break
 		}
